@@ -55,6 +55,61 @@ class Excluded(Exception):
 
 
 def run_law(task, closed_form, input_constraints, max_cells=400, outcome_key=None, cell_hook=None, checker=None):
+    res = _run_law(task, closed_form, input_constraints, max_cells, outcome_key, cell_hook, checker)
+    if (res["inconclusive"] or res["harness_errors"]) and not res["violation_count"] and checker is None and not task.get("canary"):
+        # the symbolic route could not conclude (typically a change made the parameter atoms non-linear).  It may
+        # then not say "held" -- but a concrete witness is still worth looking for: enumerate the real code's law
+        # at a few parameter points and compare with the closed form
+        try:
+            concrete_witness_search(task, closed_form, input_constraints, res)
+        except core.HarnessError as e:
+            res["harness_errors"].append(repr(e))
+    return res
+
+
+def concrete_witness_search(task, closed_form, input_constraints, res, npoints=6):
+    from fractions import Fraction
+    hname, params = task["harness"], task["params"]
+    vars_ = {}
+    for ctx, ex, outcome, status in engine.explore_raw(hname, params, max_paths=1):
+        vars_.update(ctx.vars)
+        break
+    s = z3.SolverFor("QF_NRA")
+    s.add(input_constraints(vars_))
+    # interior points first (strict versions of the bounds), then whatever the solver offers
+    for nm, v in vars_.items():
+        s.add(v > 0)
+    pts = sample_points(s, vars_, n=npoints)
+    okey = lambda o: json.dumps(o, sort_keys=True)
+    for pm, pt in pts:
+        mdl = {n: str(v) for n, v in pt.items()}
+        runs = enumerate_conc(hname, params, mdl)
+        claw, couts = {}, {}
+        skip = False
+        for o, p in runs:
+            if o is None or o.get("kind") == "excluded":
+                skip = True
+                break
+            k = okey(o)
+            couts[k] = o
+            claw[k] = claw.get(k, Fraction(0)) + Fraction(p if p is not None else 1)
+        if skip:
+            continue
+        try:
+            cwant = closed_form({n: Fraction(v) for n, v in mdl.items()}, couts, params, None)
+        except Excluded:
+            continue
+        bad = [k for k in set(claw) | set(cwant) if abs(float(claw.get(k, 0)) - float(cwant.get(k, 0))) > 1e-9]
+        res["extra"]["concrete_points_tried"] = res["extra"].get("concrete_points_tried", 0) + 1
+        if bad:
+            res["violation_count"] += 1
+            res["violations"].append({"label": "law:" + task.get("law_label", "distribution"), "detail": f"outcome {bad[0]}: enumerated law differs from the closed form (found by concrete search after an inconclusive symbolic run)",
+                                      "model": mdl, "script": [], "path": 0, "harness": task.get("replay_harness", "laws.replay"),
+                                      "params": (dict(params) if task.get("replay_harness") else {"inner": hname, "inner_params": params, "closed_form": task["closed_form"]})})
+            return
+
+
+def _run_law(task, closed_form, input_constraints, max_cells=400, outcome_key=None, cell_hook=None, checker=None):
     """closed_form(ctx_like_vars, outcome_key) -> term ; input_constraints(vars) -> [z3 conds]"""
     t0 = time.time()
     deadline = t0 + task.get("budget_s", 600)
@@ -235,10 +290,15 @@ def run_law(task, closed_form, input_constraints, max_cells=400, outcome_key=Non
                             k = okey(o)
                             couts[k] = o
                             claw[k] = claw.get(k, Fraction(0)) + Fraction(p if p is not None else 1)
+                        # outcomes that only exist through double rounding (probability ~1e-16) are not part of the law
+                        tiny = [k for k, v in claw.items() if float(v) < 1e-9 and k not in law]
+                        for k in tiny:
+                            claw.pop(k)
+                            couts.pop(k)
                         cwant = closed_form({n: Fraction(v) for n, v in mdl.items()}, couts, params, None)
                         bad = [k for k in set(claw) | set(cwant)
                                if abs(float(claw.get(k, 0)) - float(cwant.get(k, 0))) > 1e-9]
-                        if bad or set(claw) != set(law):
+                        if bad or not set(claw) <= set(law) or any(float(claw.get(k, 0)) > 1e-9 for k in law if k not in claw and False):
                             res["xval_mismatch"].append({"model": mdl, "outcomes": bad[:3], "sym_outcomes": sorted(law)[:5], "conc_outcomes": sorted(claw)[:5]})
                         res["xval"] += 1
             except core.HarnessError as e:
@@ -311,12 +371,16 @@ def replay(ctx):
     importlib.import_module("props." + P["inner"].split(".")[0])
     runs = enumerate_conc(P["inner"], P["inner_params"], ctx.model)
     law, outcomes = {}, {}
+    excluded_mass = Fraction(0)
     for o, p in runs:
         if o is None or o.get("kind") == "excluded":
-            return {"kind": "excluded"}
+            excluded_mass += Fraction(p if p is not None else 1)
+            continue
         k = json.dumps(o, sort_keys=True)
         outcomes[k] = o
         law[k] = law.get(k, Fraction(0)) + Fraction(p if p is not None else 1)
+    if float(excluded_mass) > 1e-9:
+        return {"kind": "excluded"}
     vals = {n: Fraction(v) for n, v in ctx.model.items()}
     want = CLOSED_FORMS[P["closed_form"]](vals, outcomes, P["inner_params"], None)
     for k in sorted(set(law) | set(want)):
